@@ -1563,14 +1563,26 @@ func (w *WEval) evalFuncResult(ri int) *Lay {
 		for _, r := range rets {
 			if r == d.Ret && ri < len(r.Results) {
 				// evaluated along this path: writes in blocks the path does not visit did not happen
-				savedMemo, savedBlocks := w.memo, w.pathBlocks
+				savedMemo, savedBlocks, savedPhi := w.memo, w.pathBlocks, w.pathPhi
 				w.memo = map[ssa.Value]*Lay{}
 				w.pathBlocks = map[*ssa.BasicBlock]bool{}
 				for _, b := range d.Blocks {
 					w.pathBlocks[b] = true
 				}
+				// the values merged on this path are the ones that came in along it
+				w.pathPhi = map[*ssa.Phi]ssa.Value{}
+				for ph, v := range savedPhi {
+					w.pathPhi[ph] = v
+				}
+				if d.Env != nil {
+					for ph, v := range d.Env.Phi {
+						if !isLoopHeader(ph.Block()) { // values carried round a loop are evaluated as loops
+							w.pathPhi[ph] = v
+						}
+					}
+				}
 				l := w.eval(r.Results[ri])
-				w.memo, w.pathBlocks = savedMemo, savedBlocks
+				w.memo, w.pathBlocks, w.pathPhi = savedMemo, savedBlocks, savedPhi
 				return l
 			}
 		}
